@@ -1,29 +1,19 @@
-(* The constants the model of the mode helpers of sm4.go hard-codes (pkcs7Padding, pkcs7UnPadding, SetIV,
-   Sm4Ecb/Cbc/CFB/OFB) are the constants of the source (Gen/SM4Consts.v), the literal sequences of these functions
-   (they have no semantic tie to the source: ANY changed, added or removed integer constant in them stops this
-   file from compiling), and the package-level variables of sm4.go.  Restated in Props/C11.v. *)
+(* The constant the model of SetIV of sm4.go hard-codes is the constant of the source (Gen/SM4Consts.v), the literal
+   sequence of SetIV is frozen (it has no semantic tie to the source: ANY changed, added or removed integer constant
+   in it stops this file from compiling), and the package-level variables of sm4.go are the expected ones.  The four
+   mode helpers Sm4Ecb / Sm4Cbc / Sm4CFB / Sm4OFB and the leaf functions xor, pkcs7Padding and pkcs7UnPadding are tied
+   SEMANTICALLY by SM4/ModesCodeTie.v (their statement-by-statement translation Gen/ModesCode.v equals the model for
+   all inputs), so no positional fingerprint of their literals is kept here any more: a behaviour-preserving rewrite
+   of their bodies (harmless/C11-h1) leaves this file untouched.  Restated in Props/C11.v. *)
 From Coq Require Import List NArith Arith String.
 From GmsmVerif Require Import Lib.Outcome Gen.SM4Consts SM4.ModesModel SM4.SM4ConstsBlock.
 Import ListNotations.
 Local Open Scope N_scope.
 
-(* ---------- sm4.go: padding, IV, the mode helpers -------------------------------------------------------------- *)
-Lemma pkcs7Padding_at_source src :
-  pkcs7Padding src =
-    let padding := (nlit gen_lits_pkcs7Padding 0 - List.length src mod nlit gen_lits_pkcs7Padding 1)%nat in
-    src ++ repeat (N.of_nat padding mod 256) padding.
-Proof. reflexivity. Qed.
-
+(* ---------- sm4.go: IV, package variables -------------------------------------------------------------- *)
 Lemma SetIV_at_source iv pk :
   SetIV iv pk = if negb (Nat.eqb (List.length iv) (nlit gen_lits_SetIV 0)) then (Err 1%nat, pk) else (Ok Datatypes.tt, mkPkg iv).
 Proof. reflexivity. Qed.
-
-(* every helper: key length BlockSize, 16-byte windows i*16 : i*16+16, len(inData)/16 iterations *)
-Lemma helpers_block_at_source data i :
-  blk data i = firstn (nlit gen_lits_Sm4Cbc 9) (skipn (nlit gen_lits_Sm4Cbc 6 * i) data) /\
-  blk data i = firstn (nlit gen_lits_Sm4Ecb 6) (skipn (nlit gen_lits_Sm4Ecb 3 * i) data) /\
-  zeros16 = repeat 0 (nlit gen_lits_Sm4CFB 1) /\ zeros16 = repeat 0 (nlit gen_lits_Sm4OFB 1).
-Proof. repeat split; reflexivity. Qed.
 
 (* the package-level variables the model of sm4.go knows: IV (record pkg), the mutex ivMu that orders SetIV's write
    of IV against the helpers' reads (D51; no effect on values: the helpers use the IV in force at call time, which
@@ -36,20 +26,5 @@ Proof. reflexivity. Qed.
 
 Lemma lits_modes_frozen :
   gen_lits_SetIV =
-  [16] /\
-  gen_lits_Sm4CFB =
-  [16; 16; 16; 16; 0; 16; 0; 16; 16; 16; 16; 16; 16; 16; 16; 16; 16; 16; 16; 16; 16; 0; 16; 0; 16; 16; 16; 16; 16; 16; 16; 1; 16; 1; 16; 16; 16; 16; 16; 16; 16; 16; 16] /\
-  gen_lits_Sm4Cbc =
-  [16; 16; 0; 16; 16; 16; 16; 16; 16; 16; 16; 0; 16; 16; 16; 16; 16; 16; 16; 16] /\
-  gen_lits_Sm4Ecb =
-  [16; 0; 16; 16; 16; 16; 16; 16; 16; 16; 0; 16; 16; 16; 16; 16; 16; 16; 16] /\
-  gen_lits_Sm4OFB =
-  [16; 16; 16; 16; 16; 0; 16; 0; 16; 16; 16; 16; 16; 16; 16; 16; 16; 16; 16; 16; 16; 16; 16; 16; 0; 16; 0; 16; 16; 16; 16; 16; 16; 16; 16; 16; 16; 16; 16; 16; 16; 16; 16] /\
-  gen_lits_pkcs7Padding =
-  [16; 16] /\
-  gen_lits_pkcs7UnPadding =
-  [0; 1; 16; 0; 0] /\
-  gen_lits_xor =
-  [0].
-Proof. repeat split; reflexivity. Qed.
-
+  [16].
+Proof. reflexivity. Qed.
